@@ -289,31 +289,43 @@ func c20Small(c *Ctx, feds []*GenPkg) {
 	}
 
 	// (7) an entity is resolvable unless @key says resolvable: false
-	c.R.Rule("resolvable-default", "federation.(*Entity).isResolvable: every return taken because the @key directive or its `resolvable` argument is absent returns true", 2)
+	c.R.Rule("resolvable-default", "federation.(*Entity).isResolvable: every return taken because the @key directive or its `resolvable` argument is absent returns true", 1)
 	if fn := c.W.Func(modPath("plugin/federation"), "*Entity.isResolvable"); fn == nil {
 		c.R.Fail("unresolved anchor: federation.(*Entity).isResolvable")
 	} else {
 		n := 0
 		for _, r := range an.Returns(fn) {
-			absent := false
-			for _, f := range an.Facts(r) {
-				if empty, ok := an.EmptinessFact(f, func(v ssa.Value) bool {
-					call, isCall := v.(*ssa.Call)
-					return isCall && strings.HasSuffix(an.CalleeOf(call).FullName(), ".ForName")
-				}); ok && empty {
-					absent = true
-				}
-			}
-			if !absent || len(r.Results) != 1 {
+			if len(r.Results) != 1 {
 				continue
 			}
-			n++
-			k, isC := r.Results[0].(*ssa.Const)
-			isTrue := isC && k.Value != nil && k.Value.String() == "true"
-			c.R.Check(isTrue, sprintf("isResolvable/absent-return#%d", n), c.ipos(r), "absent means resolvable",
-				"an entity whose @key has no `resolvable` argument is treated as not resolvable: under federation 2 its key fields become implicitly external and entities made only of key fields lose their resolver — valid representations are answered with null and 'unknown type'")
+			// the returned value is looked at per incoming edge, so that `return a == nil || b == nil || …` is read like the
+			// chain of early returns
+			for _, ve := range returnValueEdges(r, 0) {
+				absent := false
+				for _, f := range factsOn(ve) {
+					if empty, ok := an.EmptinessFact(f, func(v ssa.Value) bool {
+						// the @key directive or its argument, looked up directly (ForName) or through a helper that returns one
+						call, isCall := v.(*ssa.Call)
+						if !isCall {
+							return false
+						}
+						t := call.Type().String()
+						return strings.HasSuffix(t, "gqlparser/v2/ast.Directive") || strings.HasSuffix(t, "gqlparser/v2/ast.Argument")
+					}); ok && empty {
+						absent = true
+					}
+				}
+				if !absent {
+					continue
+				}
+				n++
+				k, isC := ve.val.(*ssa.Const)
+				isTrue := isC && k.Value != nil && k.Value.String() == "true"
+				c.R.Check(isTrue, sprintf("isResolvable/absent-return#%d", n), c.ipos(r), "absent means resolvable",
+					"an entity whose @key has no `resolvable` argument is treated as not resolvable: under federation 2 its key fields become implicitly external and entities made only of key fields lose their resolver — valid representations are answered with null and 'unknown type'")
+			}
 		}
-		if n < 2 {
+		if n < 1 {
 			c.R.Fail("resolvable-default: %d absent-returns found", n)
 		}
 	}
